@@ -1630,9 +1630,19 @@ where
     fn reset(&mut self, place: [u8; 3]) {
         self.teardown();
         let free = self.free_place;
-        self.a0 = Some(new_vec::<E, Tr, MA>(0, 0, place[0] as usize, free));
-        self.a1 = Some(new_vec::<E, Tr, MA>(0, 0, place[1] as usize, free));
-        self.b = Some(new_vec::<E, Tr, MB>(0, 0, place[2] as usize, free));
+        // constructing an empty vector must not panic; if it does the slot stays empty and the
+        // executor reports it
+        let _step = simcore::registry::enter_step();
+        if let Ok(v) = catch_unwind(|| new_vec::<E, Tr, MA>(0, 0, place[0] as usize, free)) {
+            self.a0 = Some(v);
+        }
+        if let Ok(v) = catch_unwind(|| new_vec::<E, Tr, MA>(0, 0, place[1] as usize, free)) {
+            self.a1 = Some(v);
+        }
+        if let Ok(v) = catch_unwind(|| new_vec::<E, Tr, MB>(0, 0, place[2] as usize, free)) {
+            self.b = Some(v);
+        }
+        let _ = simcore::registry::take_harness_panic();
     }
     fn exec(&mut self, r: &RStep) -> Vec<Ev> {
         let mut ev: Vec<Ev> = Vec::with_capacity(8);
@@ -1644,7 +1654,10 @@ where
             }
             _ => {}
         }
-        let res = catch_unwind(AssertUnwindSafe(|| self.exec_inner(r, &mut ev)));
+        let res = {
+            let _step = simcore::registry::enter_step();
+            catch_unwind(AssertUnwindSafe(|| self.exec_inner(r, &mut ev)))
+        };
         if let Err(payload) = res {
             ev.push(Ev::Panic);
             harness(|| drop(payload));
